@@ -17,7 +17,7 @@ import (
 func init() {
 	register(&Prop{
 		ID: "C15", Level: "exploration", Quick: 84000, Thorough: 4200000,
-		Rule: "trial = (relation kind, generated input, window / wrap width / stdin flag); relation kinds: toMultiAlign window (with and without --pad), toMultiAlign wrap, toPairAlign window, toPairAlign wrap, variants window (start alone, end alone, both), sam variants window, variants stdin-vs-file; each side of the relation runs under its own seeded schedule, thread count and read chunking; non-trivial = the option changed the output (window cuts something / wrap breaks a line / filter removes a mutation) or, for stdin, a multi-ready select occurred; distinct = distinct (input, options)",
+		Rule:  "trial = (relation kind, generated input, window / wrap width / stdin flag); relation kinds: toMultiAlign window (with and without --pad), toMultiAlign wrap, toPairAlign window, toPairAlign wrap, variants window (start alone, end alone, both), sam variants window, variants stdin-vs-file; each side of the relation runs under its own seeded schedule, thread count and read chunking; non-trivial = the option changed the output (window cuts something / wrap breaks a line / filter removes a mutation) or, for stdin, a multi-ready select occurred; distinct = distinct (input, options)",
 		Gen:   genC15,
 		Check: checkC15,
 	})
